@@ -497,6 +497,97 @@ def rule_nondet(rep: Report, repo: Repo) -> None:
               expected='sets are iterated only into other sets / sorted() / message strings')
 
 
+def rule_snapshot_point(rep: Report, repo: Repo) -> None:
+    """WHEN the prefix cache is written: folded on concrete file lists, cold and warm"""
+    rep.rule('C13.SNAPSHOT-POINT', 'the stl-prefix snapshot is taken only while the parser holds exactly the prefix files: the file loop of '
+             '_parse_files_into_parser is folded on concrete cases (prefix length x number of user files x cold / warm cache), the calls '
+             'are recorded in order, and (a) every input file is parsed exactly once and in order, except the prefix on a warm run, which '
+             'is restored instead; (b) every snapshot happens when restored + parsed == prefix length; (c) a cold run with a prefix takes '
+             'exactly one snapshot', 1)
+    from ..pyfold import CantFold, Opaque, fold_fn
+    fn = repo.func(PARSER, '_parse_files_into_parser')
+    mod = repo.mod(PARSER)
+    top_names = {t.id for st in mod.body if isinstance(st, (ast.Assign, ast.AnnAssign)) for t in (st.targets if isinstance(st, ast.Assign) else [st.target])
+                 if isinstance(t, ast.Name)}
+    snap_fns: Dict[str, str] = {}
+    for d in mod.body:
+        if isinstance(d, ast.FunctionDef):
+            for a in ast.walk(d):
+                if isinstance(a, ast.Assign) and any(isinstance(t, ast.Subscript) and isinstance(t.value, ast.Name) and t.value.id in top_names for t in a.targets):
+                    snap_fns[d.name] = next(t.value.id for t in a.targets if isinstance(t, ast.Subscript) and isinstance(t.value, ast.Name))   # type: ignore[union-attr]
+    called = {dotted(c.func) for c in calls(fn)}
+    snaps = {n for n in snap_fns if n in called}
+    caches = {snap_fns[n] for n in snaps}
+    if len(snaps) != 1 or len(caches) != 1:
+        raise AnalysisError(f'C13.SNAPSHOT-POINT: the snapshot writer called by _parse_files_into_parser was not identified ({sorted(snaps)})')
+    cache = next(iter(caches))
+    parse_fns = {d.name for d in mod.body if isinstance(d, ast.FunctionDef) and d.name in called
+                 and any(isinstance(c, ast.Call) and isinstance(c.func, ast.Attribute) and c.func.attr == 'parse' for c in ast.walk(d))}
+    if len(parse_fns) != 1:
+        raise AnalysisError(f'C13.SNAPSHOT-POINT: the per-file parse step was not identified ({sorted(parse_fns)})')
+    # the name the loops bind the current path to: the last name of the loop targets over the file list
+    path_names = set()
+    for lp in ast.walk(fn):
+        if isinstance(lp, ast.For):
+            nm = [n.id for n in ast.walk(lp.target) if isinstance(n, ast.Name)]
+            if nm:
+                path_names.add(nm[-1])
+    files_param = next((a.arg for a in fn.args.args if 'List' in ast.unparse(a.annotation or ast.Constant(value='')) and 'Tuple' in ast.unparse(a.annotation or ast.Constant(value=''))), None)
+    if files_param is None or len(path_names) != 1:
+        raise AnalysisError('C13.SNAPSHOT-POINT: the file list parameter / the loop variable of the current path was not identified')
+    path_name = next(iter(path_names))
+    bad: List[str] = []
+    n_cases = 0
+    for P in (0, 1, 2, 3):
+        for U in (0, 1, 2, 3, 4, 5):
+            for warm in (False, True):
+                files = [(f's{i}', f'F{i}') for i in range(P + U)]
+                env: Dict[str, Any] = {cache: ({'KEY': 'CACHED'} if warm else {})}
+                ev: List[Tuple[str, Any]] = []
+
+                def on_call(d: str, vals: List[Any], kws: Dict[str, Any]) -> Any:
+                    if d in snaps:
+                        ev.append(('snap', sum(P for k, _ in ev if k == 'restore') + sum(1 for k, _ in ev if k == 'parse')))
+                        return None
+                    if d in parse_fns:
+                        ev.append(('parse', env.get(path_name)))
+                        return None
+                    if any(v == 'CACHED' for v in vals):
+                        ev.append(('restore', None))
+                        return None
+                    if vals and vals[0] is files:
+                        return P if len(vals) == 1 else 'KEY'
+                    if d == 'set':
+                        return Opaque('set')
+                    return Opaque(d) if d not in ('range', 'len', 'enumerate') else NotImplemented
+                argv = [files if a.arg == files_param else (64 if 'width' in a.arg else Opaque(a.arg)) for a in fn.args.args]
+                try:
+                    fold_fn(repo, PARSER, fn, argv, on_call, env=env)
+                except CantFold as ex:
+                    raise AnalysisError(f'C13.SNAPSHOT-POINT: _parse_files_into_parser could not be folded (prefix {P}, user files {U}, warm={warm}): {ex}')
+                n_cases += 1
+                hit = warm and P > 0
+                parsed = [v for k, v in ev if k == 'parse']
+                want = [f'F{i}' for i in range(P if hit else 0, P + U)]
+                snaps_at = [v for k, v in ev if k == 'snap']
+                restores = sum(1 for k, _ in ev if k == 'restore')
+                problem = None
+                if parsed != want:
+                    problem = f'parses {parsed}, expected {want}'
+                elif restores != int(hit):
+                    problem = f'{restores} restores'
+                elif any(v != P for v in snaps_at):
+                    problem = f'snapshot taken with {snaps_at} files in the parser, the prefix has {P}'
+                elif not hit and P > 0 and len(snaps_at) != 1:
+                    problem = f'{len(snaps_at)} snapshots on a cold run'
+                elif P == 0 and snaps_at:
+                    problem = 'snapshot without a prefix'
+                if problem and len(bad) < 3:
+                    bad.append(f'prefix {P} + {U} user files, {"warm" if warm else "cold"} cache: {problem}')
+    rep.check(not bad, 'C13.SNAPSHOT-POINT', '_parse_files_into_parser', '; '.join(bad) if bad else f'{n_cases} folded cases: files parsed once and in order, snapshot only at the prefix boundary',
+              f'{PARSER}:{fn.lineno} _parse_files_into_parser', expected='snapshot exactly when restored + parsed == prefix length')
+
+
 def check(rep: Report, repo: Optional[Repo] = None) -> None:
     repo = repo or Repo()
     rep.units = dict(files=PIPELINE, globals=sorted(KNOWN_GLOBALS))
@@ -505,6 +596,7 @@ def check(rep: Report, repo: Optional[Repo] = None) -> None:
     rule_cache_valid(rep, repo)
     rule_cache_key(rep, repo)
     rule_cache_alias(rep, repo)
+    rule_snapshot_point(rep, repo)
     rule_immut(rep, repo)
     rule_reclimit(rep, repo)
     rule_nondet(rep, repo)
@@ -512,7 +604,7 @@ def check(rep: Report, repo: Optional[Repo] = None) -> None:
 
 
 MANIFEST = dict(
-    technique='reaching-definition rules for process globals; cache-key coverage; ownership/freshness of mutated objects; effect scan',
+    technique='reaching-definition rules for process globals; cache-key coverage; ownership/freshness of mutated objects; effect scan; syntax-tree folding of the cached file loop on concrete cases (snapshot point)',
     level_text='Static: every parser global is (re)assigned on the current call\'s path before its readers can run, including the '
                'cache-hit path; the cache key covers every input the prefix parse reads and is the only index into the cache; '
                'snapshot/restore never alias mutable state; the five mutation sites on op objects act on freshly cloned objects while '
